@@ -118,3 +118,637 @@ lemma second-save-keeps-first
   concl same-length: e1 == nil && e2 == nil && e3 == nil && len(r) == len(v1)
   concl same-bytes: r[i] == old(v1[i])
 @*/
+
+/*@
+// ---------------------------------------------------------------------------------------------------------------------
+// C07 — contract code is stored once and reference-counted correctly.
+//
+// MODEL OF THE MAIN TRIE (assumption). The trie behind Updater / data.Trie is an interface: its content is not Go heap.
+// It is modelled by GHOST CELLS: tcell(t, k) is an (uninterpreted) one-element slice chosen per trie t and key CONTENT k;
+// tcell(t,k)[0] is the byte string stored under k ("" = no leaf), `assigns elems(tcell(t,k))` is a write of exactly that
+// leaf. Cells of different keys are different cells (axiom tcKey), so the frame clause of every contract below IS the
+// "every other hash keeps its entry" half of the delta statement on a witness hash.
+// MODEL OF THE MARSHALIZER (assumption: lossless round trip of CodeEntry). encRefs(s) / encCode(s) are the
+// NumReferences / Code fields of the CodeEntry that the byte string s decodes to.
+// The code entry under hash h:  present  <=> tcell(t,h)[0] != "",  NumReferences = encRefs(tcell(t,h)[0]).
+spec fn tcell(t Updater, k string) []string
+  axiom tcKey(base(tcell(t, k))) == k
+  axiom len(tcell(t, k)) == 1 && off(tcell(t, k)) == 0
+spec fn tcKey(r ref) string
+spec fn encRefs(s string) int
+  axiom 0 <= encRefs(s) && encRefs(s) <= 4294967295
+spec fn encCode(s string) string
+spec fn entryPresent(t Updater, h string) bool = len(tcell(t, h)[0]) != 0
+spec fn entryRefs(t Updater, h string) int = encRefs(tcell(t, h)[0])
+spec fn entryCode(t Updater, h string) string = encCode(tcell(t, h)[0])
+
+func (t Updater) Get(key []byte) (r []byte, err error)
+  ensures  reads-leaf: err == nil ==> str(r) == tcell(t, str(key))[0]
+  assigns  nothing
+
+func (t Updater) Update(key []byte, value []byte) (err error)
+  ensures  writes-leaf: err == nil ==> tcell(t, str(key))[0] == old(str(value))
+  ensures  failure-changes-nothing: err != nil ==> tcell(t, str(key))[0] == old(tcell(t, str(key))[0])
+  assigns  elems(tcell(t, str(key)))
+
+func (m marshal.Marshalizer) Marshal(obj interface{}) (r []byte, err error)
+  ensures  encodes-code-entry: err == nil && typeIs(obj, ptr_state.CodeEntry) && payload(obj, ptr_state.CodeEntry) != nil ==>
+             encRefs(str(r)) == payload(obj, ptr_state.CodeEntry).NumReferences
+             && encCode(str(r)) == str(payload(obj, ptr_state.CodeEntry).Code)
+             && (payload(obj, ptr_state.CodeEntry).NumReferences >= 1 ==> len(r) > 0)
+  assigns  nothing
+
+func (m marshal.Marshalizer) Unmarshal(obj interface{}, buff []byte) (err error)
+  ensures  decodes-code-entry: err == nil && typeIs(obj, ptr_state.CodeEntry) ==>
+             payload(obj, ptr_state.CodeEntry).NumReferences == encRefs(str(buff))
+             && str(payload(obj, ptr_state.CodeEntry).Code) == encCode(str(buff))
+  assigns  fields(payload(obj, ptr_state.CodeEntry)), payload(obj, ptr_state.userAccount).UserAccountData, payload(obj, ptr_state.peerAccount).PeerAccountData
+
+func getCodeEntry(codeHash []byte, trie Updater, marshalizer marshal.Marshalizer) (e *CodeEntry, err error)
+  requires wired: !isNil(trie) && !isNil(marshalizer)
+  ensures  absent: err == nil && !entryPresent(trie, str(codeHash)) ==> e == nil
+  ensures  present: err == nil && entryPresent(trie, str(codeHash)) ==> e != nil && fresh(e)
+             && e.NumReferences == entryRefs(trie, str(codeHash)) && str(e.Code) == entryCode(trie, str(codeHash))
+  ensures  failure: err != nil ==> e == nil
+  assigns  nothing
+
+func saveCodeEntry(codeHash []byte, entry *CodeEntry, trie Updater, marshalizer marshal.Marshalizer) (err error)
+  requires wired: !isNil(trie) && !isNil(marshalizer)
+  ensures  stored: err == nil && entry != nil ==> entryRefs(trie, str(codeHash)) == old(entry.NumReferences) && entryCode(trie, str(codeHash)) == old(str(entry.Code))
+             && (old(entry.NumReferences) >= 1 ==> entryPresent(trie, str(codeHash)))
+  ensures  failure-changes-nothing: err != nil ==> tcell(trie, str(codeHash))[0] == old(tcell(trie, str(codeHash))[0])
+  assigns  elems(tcell(trie, str(codeHash)))
+@*/
+
+/*@
+// C07 (continued) — the reference counter of the entry under ONE hash moves by exactly one; every other leaf is framed out.
+// adb.mainTrie (data.Trie) is the same object the helpers see as Updater: same ghost cells.
+func (tr data.Trie) Update(key []byte, value []byte) (err error)
+  ensures  writes-leaf: err == nil ==> tcell(tr, str(key))[0] == old(str(value))
+  ensures  failure-changes-nothing: err != nil ==> tcell(tr, str(key))[0] == old(tcell(tr, str(key))[0])
+  assigns  elems(tcell(tr, str(key)))
+
+func (adb *AccountsDB) updateOldCodeEntry(oldCodeHash []byte) (e *CodeEntry, err error)
+  requires wired: !isNil(adb.mainTrie) && !isNil(adb.marshalizer)
+  ensures  absent-untouched: err == nil && !old(entryPresent(adb.mainTrie, str(oldCodeHash))) ==> e == nil && tcell(adb.mainTrie, str(oldCodeHash))[0] == old(tcell(adb.mainTrie, str(oldCodeHash))[0])
+  ensures  last-reference-deletes: err == nil && old(entryPresent(adb.mainTrie, str(oldCodeHash))) && old(entryRefs(adb.mainTrie, str(oldCodeHash))) <= 1 ==> !entryPresent(adb.mainTrie, str(oldCodeHash))
+  ensures  decrements-by-one: err == nil && old(entryPresent(adb.mainTrie, str(oldCodeHash))) && old(entryRefs(adb.mainTrie, str(oldCodeHash))) > 1 ==>
+             entryPresent(adb.mainTrie, str(oldCodeHash)) && entryRefs(adb.mainTrie, str(oldCodeHash)) == old(entryRefs(adb.mainTrie, str(oldCodeHash))) - 1
+             && entryCode(adb.mainTrie, str(oldCodeHash)) == old(entryCode(adb.mainTrie, str(oldCodeHash)))
+  ensures  returns-unmodified-copy: err == nil && old(entryPresent(adb.mainTrie, str(oldCodeHash))) ==> e != nil && fresh(e)
+             && e.NumReferences == old(entryRefs(adb.mainTrie, str(oldCodeHash))) && str(e.Code) == old(entryCode(adb.mainTrie, str(oldCodeHash)))
+  ensures  failure-changes-nothing: err != nil ==> e == nil && tcell(adb.mainTrie, str(oldCodeHash))[0] == old(tcell(adb.mainTrie, str(oldCodeHash))[0])
+  assigns  elems(tcell(adb.mainTrie, str(oldCodeHash)))
+
+func (adb *AccountsDB) updateNewCodeEntry(newCodeHash []byte, newCode []byte) (err error)
+  requires wired: !isNil(adb.mainTrie) && !isNil(adb.marshalizer)
+  ensures  no-code-nothing-to-do: len(newCode) == 0 ==> err == nil && tcell(adb.mainTrie, str(newCodeHash))[0] == old(tcell(adb.mainTrie, str(newCodeHash))[0])
+  ensures  created-with-one: err == nil && len(newCode) != 0 && !old(entryPresent(adb.mainTrie, str(newCodeHash))) ==>
+             entryPresent(adb.mainTrie, str(newCodeHash)) && entryRefs(adb.mainTrie, str(newCodeHash)) == 1
+             && entryCode(adb.mainTrie, str(newCodeHash)) == old(str(newCode))
+  // (NumReferences is a uint32: the increment is exact while fewer than 2^32-1 accounts share one code)
+  ensures  increments-by-one: err == nil && len(newCode) != 0 && old(entryPresent(adb.mainTrie, str(newCodeHash))) && old(entryRefs(adb.mainTrie, str(newCodeHash))) < 4294967295 ==>
+             entryPresent(adb.mainTrie, str(newCodeHash)) && entryRefs(adb.mainTrie, str(newCodeHash)) == old(entryRefs(adb.mainTrie, str(newCodeHash))) + 1
+             && entryCode(adb.mainTrie, str(newCodeHash)) == old(entryCode(adb.mainTrie, str(newCodeHash)))
+  ensures  failure-changes-nothing: err != nil ==> tcell(adb.mainTrie, str(newCodeHash))[0] == old(tcell(adb.mainTrie, str(newCodeHash))[0])
+  assigns  elems(tcell(adb.mainTrie, str(newCodeHash)))
+
+func NewJournalEntryCode(oldCodeEntry *CodeEntry, oldCodeHash []byte, newCodeHash []byte, trie Updater, marshalizer marshal.Marshalizer) (j *journalEntryCode, err error)
+  ensures  rejects-nil: isNil(trie) || isNil(marshalizer) ==> j == nil && err != nil
+  ensures  records: !isNil(trie) && !isNil(marshalizer) ==> err == nil && j != nil && fresh(j) && j.oldCodeEntry == oldCodeEntry
+             && j.oldCodeHash == oldCodeHash && j.newCodeHash == newCodeHash && j.trie == trie && j.marshalizer == marshalizer
+  assigns  nothing
+
+func (jea *journalEntryCode) revertOldCodeEntry() (err error)
+  requires wired: !isNil(jea.trie) && !isNil(jea.marshalizer)
+  ensures  no-old-code-nothing-to-do: len(jea.oldCodeHash) == 0 ==> err == nil && tcell(jea.trie, str(jea.oldCodeHash))[0] == old(tcell(jea.trie, str(jea.oldCodeHash))[0])
+  ensures  pre-image-written-back: err == nil && len(jea.oldCodeHash) != 0 && jea.oldCodeEntry != nil ==>
+             entryRefs(jea.trie, str(jea.oldCodeHash)) == jea.oldCodeEntry.NumReferences && entryCode(jea.trie, str(jea.oldCodeHash)) == str(jea.oldCodeEntry.Code)
+             && (jea.oldCodeEntry.NumReferences >= 1 ==> entryPresent(jea.trie, str(jea.oldCodeHash)))
+  ensures  failure-changes-nothing: err != nil ==> tcell(jea.trie, str(jea.oldCodeHash))[0] == old(tcell(jea.trie, str(jea.oldCodeHash))[0])
+  assigns  elems(tcell(jea.trie, str(jea.oldCodeHash)))
+
+func (jea *journalEntryCode) revertNewCodeEntry() (err error)
+  requires wired: !isNil(jea.trie) && !isNil(jea.marshalizer)
+  ensures  absent-untouched: err == nil && !old(entryPresent(jea.trie, str(jea.newCodeHash))) ==> tcell(jea.trie, str(jea.newCodeHash))[0] == old(tcell(jea.trie, str(jea.newCodeHash))[0])
+  ensures  last-reference-deletes: err == nil && old(entryPresent(jea.trie, str(jea.newCodeHash))) && old(entryRefs(jea.trie, str(jea.newCodeHash))) <= 1 ==> !entryPresent(jea.trie, str(jea.newCodeHash))
+  ensures  decrements-by-one: err == nil && old(entryPresent(jea.trie, str(jea.newCodeHash))) && old(entryRefs(jea.trie, str(jea.newCodeHash))) > 1 ==>
+             entryPresent(jea.trie, str(jea.newCodeHash)) && entryRefs(jea.trie, str(jea.newCodeHash)) == old(entryRefs(jea.trie, str(jea.newCodeHash))) - 1
+             && entryCode(jea.trie, str(jea.newCodeHash)) == old(entryCode(jea.trie, str(jea.newCodeHash)))
+  ensures  failure-changes-nothing: err != nil ==> tcell(jea.trie, str(jea.newCodeHash))[0] == old(tcell(jea.trie, str(jea.newCodeHash))[0])
+  assigns  elems(tcell(jea.trie, str(jea.newCodeHash)))
+@*/
+
+/*@
+// C07 (continued) — journalEntryCode.Revert is the inverse of saveCode's two entry updates; saveCode / removeCode.
+func (jea *journalEntryCode) Revert() (a vmcommon.AccountHandler, err error)
+  requires wired: !isNil(jea.trie) && !isNil(jea.marshalizer)
+  ensures  no-account-to-save: isNil(a)
+  ensures  same-hash-nothing-to-undo: str(jea.oldCodeHash) == str(jea.newCodeHash) ==> err == nil && tcell(jea.trie, str(jea.oldCodeHash))[0] == old(tcell(jea.trie, str(jea.oldCodeHash))[0])
+  ensures  old-entry-restored: err == nil && str(jea.oldCodeHash) != str(jea.newCodeHash) && len(jea.oldCodeHash) != 0 && jea.oldCodeEntry != nil ==>
+             entryRefs(jea.trie, str(jea.oldCodeHash)) == jea.oldCodeEntry.NumReferences && entryCode(jea.trie, str(jea.oldCodeHash)) == str(jea.oldCodeEntry.Code)
+             && (jea.oldCodeEntry.NumReferences >= 1 ==> entryPresent(jea.trie, str(jea.oldCodeHash)))
+  ensures  no-old-code-old-side-untouched: err == nil && str(jea.oldCodeHash) != str(jea.newCodeHash) && len(jea.oldCodeHash) == 0 ==>
+             tcell(jea.trie, str(jea.oldCodeHash))[0] == old(tcell(jea.trie, str(jea.oldCodeHash))[0])
+  ensures  new-absent-untouched: err == nil && str(jea.oldCodeHash) != str(jea.newCodeHash) && !old(entryPresent(jea.trie, str(jea.newCodeHash))) ==>
+             tcell(jea.trie, str(jea.newCodeHash))[0] == old(tcell(jea.trie, str(jea.newCodeHash))[0])
+  ensures  new-last-reference-deleted: err == nil && str(jea.oldCodeHash) != str(jea.newCodeHash) && old(entryPresent(jea.trie, str(jea.newCodeHash))) && old(entryRefs(jea.trie, str(jea.newCodeHash))) <= 1 ==>
+             !entryPresent(jea.trie, str(jea.newCodeHash))
+  ensures  new-decremented-by-one: err == nil && str(jea.oldCodeHash) != str(jea.newCodeHash) && old(entryPresent(jea.trie, str(jea.newCodeHash))) && old(entryRefs(jea.trie, str(jea.newCodeHash))) > 1 ==>
+             entryPresent(jea.trie, str(jea.newCodeHash)) && entryRefs(jea.trie, str(jea.newCodeHash)) == old(entryRefs(jea.trie, str(jea.newCodeHash))) - 1
+             && entryCode(jea.trie, str(jea.newCodeHash)) == old(entryCode(jea.trie, str(jea.newCodeHash)))
+  assigns  elems(tcell(jea.trie, str(jea.oldCodeHash))), elems(tcell(jea.trie, str(jea.newCodeHash)))
+
+// jidx is the identity on journal indexes: it gives the solvers a trigger that survives the arithmetic normalisation of
+// slice offsets (the quantified "earlier entries kept" facts chain through several calls)
+spec fn jidx(k int) int
+  axiom jidx(k) == k
+
+func (adb *AccountsDB) journalize(entry JournalEntry)
+  ensures  nil-entry-ignored: isNil(entry) ==> adb.entries == old(adb.entries)
+  ensures  appended-last: !isNil(entry) ==> len(adb.entries) == old(len(adb.entries)) + 1 && adb.entries[jidx(old(len(adb.entries)))] == entry
+  ensures  earlier-entries-kept: forall k :: 0 <= k && k < old(len(adb.entries)) ==> adb.entries[jidx(k)] == old(adb.entries[jidx(k)])
+  ensures  same-or-new-array: base(adb.entries) == old(base(adb.entries)) || fresh(adb.entries)
+  assigns  adb.entries, elems(adb.entries)
+@*/
+
+/*@
+// C07 (continued) — saveCode / removeCode. Accounts are userAccount objects (the only baseAccountHandler of this package);
+// the interface contracts below say what userAccount's methods do (the concrete methods are verified against the same clauses).
+spec fn hashOf(h hashing.Hasher, s string) string
+spec fn uaCodeHash(a baseAccountHandler) string = str(payload(a, ptr_state.userAccount).CodeHash)
+spec fn uaNewCode(a baseAccountHandler) string = str(payload(a, ptr_state.userAccount).baseAccount.code)
+spec fn uaNewHash(adb *AccountsDB, a baseAccountHandler) string = len(payload(a, ptr_state.userAccount).baseAccount.code) == 0 ? "" : hashOf(adb.hasher, uaNewCode(a))
+spec fn uaOldHash(a baseAccountHandler) string = isNil(a) ? "" : uaCodeHash(a)
+spec fn isUser(a baseAccountHandler) bool = typeIs(a, ptr_state.userAccount) && payload(a, ptr_state.userAccount) != nil && payload(a, ptr_state.userAccount).baseAccount != nil
+
+func (h hashing.Hasher) Compute(s string) (r []byte)
+  ensures  hash-of-content: str(r) == hashOf(h, s)
+  assigns  nothing
+
+func (b baseAccountHandler) HasNewCode() (r bool)
+  ensures  reads-flag: isUser(b) ==> r == payload(b, ptr_state.userAccount).baseAccount.hasNewCode
+  assigns  nothing
+
+func (b baseAccountHandler) GetCodeHash() (r []byte)
+  ensures  reads-code-hash: isUser(b) ==> r == payload(b, ptr_state.userAccount).CodeHash
+  assigns  nothing
+
+func (b baseAccountHandler) SetCodeHash(codeHash []byte)
+  ensures  writes-code-hash: isUser(b) ==> payload(b, ptr_state.userAccount).CodeHash == codeHash
+  assigns  payload(b, ptr_state.userAccount).UserAccountData
+
+func (a *userAccount) SetCodeHash(codeHash []byte)
+  ensures  writes-code-hash: a.CodeHash == codeHash
+  assigns  a.UserAccountData
+
+func (ba *baseAccount) HasNewCode() (r bool)
+  ensures  reads-flag: r == ba.hasNewCode
+  assigns  nothing
+
+func (adb *AccountsDB) saveCode(newAcc baseAccountHandler, oldAcc baseAccountHandler) (err error)
+  requires wired: !isNil(adb.mainTrie) && !isNil(adb.marshalizer) && !isNil(adb.hasher)
+  requires accounts-are-user-accounts: isUser(newAcc) && (isNil(oldAcc) || isUser(oldAcc))
+  ensures  no-new-code-nothing-to-do: !old(payload(newAcc, ptr_state.userAccount).baseAccount.hasNewCode) ==> err == nil && len(adb.entries) == old(len(adb.entries))
+             && tcell(adb.mainTrie, old(uaOldHash(oldAcc)))[0] == old(tcell(adb.mainTrie, uaOldHash(oldAcc))[0])
+             && tcell(adb.mainTrie, old(uaNewHash(adb, newAcc)))[0] == old(tcell(adb.mainTrie, uaNewHash(adb, newAcc))[0])
+  ensures  same-code-no-count-moves: old(uaOldHash(oldAcc)) == old(uaNewHash(adb, newAcc)) ==> err == nil && len(adb.entries) == old(len(adb.entries))
+             && tcell(adb.mainTrie, old(uaOldHash(oldAcc)))[0] == old(tcell(adb.mainTrie, uaOldHash(oldAcc))[0])
+  ensures  code-hash-set: err == nil && old(payload(newAcc, ptr_state.userAccount).baseAccount.hasNewCode) ==> uaCodeHash(newAcc) == old(uaNewHash(adb, newAcc))
+  ensures  old-absent-untouched: err == nil && old(payload(newAcc, ptr_state.userAccount).baseAccount.hasNewCode) && old(uaOldHash(oldAcc)) != old(uaNewHash(adb, newAcc))
+             && !old(entryPresent(adb.mainTrie, uaOldHash(oldAcc))) ==> tcell(adb.mainTrie, old(uaOldHash(oldAcc)))[0] == old(tcell(adb.mainTrie, uaOldHash(oldAcc))[0])
+  ensures  old-last-reference-deleted: err == nil && old(payload(newAcc, ptr_state.userAccount).baseAccount.hasNewCode) && old(uaOldHash(oldAcc)) != old(uaNewHash(adb, newAcc))
+             && old(entryPresent(adb.mainTrie, uaOldHash(oldAcc))) && old(entryRefs(adb.mainTrie, uaOldHash(oldAcc))) <= 1 ==> !entryPresent(adb.mainTrie, old(uaOldHash(oldAcc)))
+  ensures  old-decremented-by-one: err == nil && old(payload(newAcc, ptr_state.userAccount).baseAccount.hasNewCode) && old(uaOldHash(oldAcc)) != old(uaNewHash(adb, newAcc))
+             && old(entryPresent(adb.mainTrie, uaOldHash(oldAcc))) && old(entryRefs(adb.mainTrie, uaOldHash(oldAcc))) > 1 ==>
+             entryPresent(adb.mainTrie, old(uaOldHash(oldAcc))) && entryRefs(adb.mainTrie, old(uaOldHash(oldAcc))) == old(entryRefs(adb.mainTrie, uaOldHash(oldAcc))) - 1
+             && entryCode(adb.mainTrie, old(uaOldHash(oldAcc))) == old(entryCode(adb.mainTrie, uaOldHash(oldAcc)))
+  ensures  new-created-with-one: err == nil && old(payload(newAcc, ptr_state.userAccount).baseAccount.hasNewCode) && old(uaOldHash(oldAcc)) != old(uaNewHash(adb, newAcc))
+             && old(len(payload(newAcc, ptr_state.userAccount).baseAccount.code)) != 0 && !old(entryPresent(adb.mainTrie, uaNewHash(adb, newAcc))) ==>
+             entryPresent(adb.mainTrie, old(uaNewHash(adb, newAcc))) && entryRefs(adb.mainTrie, old(uaNewHash(adb, newAcc))) == 1
+             && entryCode(adb.mainTrie, old(uaNewHash(adb, newAcc))) == old(uaNewCode(newAcc))
+  ensures  new-incremented-by-one: err == nil && old(payload(newAcc, ptr_state.userAccount).baseAccount.hasNewCode) && old(uaOldHash(oldAcc)) != old(uaNewHash(adb, newAcc))
+             && old(len(payload(newAcc, ptr_state.userAccount).baseAccount.code)) != 0 && old(entryPresent(adb.mainTrie, uaNewHash(adb, newAcc)))
+             && old(entryRefs(adb.mainTrie, uaNewHash(adb, newAcc))) < 4294967295 ==>
+             entryPresent(adb.mainTrie, old(uaNewHash(adb, newAcc))) && entryRefs(adb.mainTrie, old(uaNewHash(adb, newAcc))) == old(entryRefs(adb.mainTrie, uaNewHash(adb, newAcc))) + 1
+             && entryCode(adb.mainTrie, old(uaNewHash(adb, newAcc))) == old(entryCode(adb.mainTrie, uaNewHash(adb, newAcc)))
+  ensures  code-cleared-new-side-untouched: err == nil && old(len(payload(newAcc, ptr_state.userAccount).baseAccount.code)) == 0 && old(uaOldHash(oldAcc)) != "" ==>
+             tcell(adb.mainTrie, "")[0] == old(tcell(adb.mainTrie, "")[0])
+  ensures  change-journaled: err == nil && old(payload(newAcc, ptr_state.userAccount).baseAccount.hasNewCode) && old(uaOldHash(oldAcc)) != old(uaNewHash(adb, newAcc)) ==>
+             len(adb.entries) == old(len(adb.entries)) + 1 && typeIs(adb.entries[jidx(old(len(adb.entries)))], ptr_state.journalEntryCode)
+             && str(payload(adb.entries[jidx(old(len(adb.entries)))], ptr_state.journalEntryCode).oldCodeHash) == old(uaOldHash(oldAcc))
+             && str(payload(adb.entries[jidx(old(len(adb.entries)))], ptr_state.journalEntryCode).newCodeHash) == old(uaNewHash(adb, newAcc))
+             && payload(adb.entries[jidx(old(len(adb.entries)))], ptr_state.journalEntryCode).trie == adb.mainTrie
+  ensures  pre-image-journaled: err == nil && old(payload(newAcc, ptr_state.userAccount).baseAccount.hasNewCode) && old(uaOldHash(oldAcc)) != old(uaNewHash(adb, newAcc))
+             && old(entryPresent(adb.mainTrie, uaOldHash(oldAcc))) ==>
+             payload(adb.entries[jidx(old(len(adb.entries)))], ptr_state.journalEntryCode).oldCodeEntry != nil
+             && payload(adb.entries[jidx(old(len(adb.entries)))], ptr_state.journalEntryCode).oldCodeEntry.NumReferences == old(entryRefs(adb.mainTrie, uaOldHash(oldAcc)))
+             && str(payload(adb.entries[jidx(old(len(adb.entries)))], ptr_state.journalEntryCode).oldCodeEntry.Code) == old(entryCode(adb.mainTrie, uaOldHash(oldAcc)))
+  ensures  earlier-entries-kept: forall k :: 0 <= k && k < old(len(adb.entries)) ==> adb.entries[jidx(k)] == old(adb.entries[jidx(k)])
+  ensures  same-or-new-array: base(adb.entries) == old(base(adb.entries)) || fresh(adb.entries)
+  ensures  at-most-one-entry: len(adb.entries) >= old(len(adb.entries)) && len(adb.entries) <= old(len(adb.entries)) + 1
+  ensures  only-a-code-entry: len(adb.entries) > old(len(adb.entries)) ==> typeIs(adb.entries[jidx(old(len(adb.entries)))], ptr_state.journalEntryCode)
+  ensures  failure-journals-nothing: err != nil ==> adb.entries == old(adb.entries)
+  assigns  elems(tcell(adb.mainTrie, uaOldHash(oldAcc))), elems(tcell(adb.mainTrie, uaNewHash(adb, newAcc))), adb.entries, elems(adb.entries), payload(newAcc, ptr_state.userAccount).UserAccountData
+@*/
+
+/*@
+func (adb *AccountsDB) removeCode(baseAcc baseAccountHandler) (err error)
+  requires wired: !isNil(adb.mainTrie) && !isNil(adb.marshalizer)
+  requires account-is-user-account: isUser(baseAcc)
+  ensures  absent-untouched: err == nil && !old(entryPresent(adb.mainTrie, uaCodeHash(baseAcc))) ==> tcell(adb.mainTrie, uaCodeHash(baseAcc))[0] == old(tcell(adb.mainTrie, uaCodeHash(baseAcc))[0])
+  ensures  last-reference-deleted: err == nil && old(entryPresent(adb.mainTrie, uaCodeHash(baseAcc))) && old(entryRefs(adb.mainTrie, uaCodeHash(baseAcc))) <= 1 ==> !entryPresent(adb.mainTrie, uaCodeHash(baseAcc))
+  ensures  decremented-by-one: err == nil && old(entryPresent(adb.mainTrie, uaCodeHash(baseAcc))) && old(entryRefs(adb.mainTrie, uaCodeHash(baseAcc))) > 1 ==>
+             entryPresent(adb.mainTrie, uaCodeHash(baseAcc)) && entryRefs(adb.mainTrie, uaCodeHash(baseAcc)) == old(entryRefs(adb.mainTrie, uaCodeHash(baseAcc))) - 1
+             && entryCode(adb.mainTrie, uaCodeHash(baseAcc)) == old(entryCode(adb.mainTrie, uaCodeHash(baseAcc)))
+  ensures  removal-journaled: err == nil ==> len(adb.entries) == old(len(adb.entries)) + 1 && typeIs(adb.entries[jidx(old(len(adb.entries)))], ptr_state.journalEntryCode)
+             && str(payload(adb.entries[jidx(old(len(adb.entries)))], ptr_state.journalEntryCode).oldCodeHash) == uaCodeHash(baseAcc)
+             && len(payload(adb.entries[jidx(old(len(adb.entries)))], ptr_state.journalEntryCode).newCodeHash) == 0
+             && payload(adb.entries[jidx(old(len(adb.entries)))], ptr_state.journalEntryCode).trie == adb.mainTrie
+  ensures  pre-image-journaled: err == nil && old(entryPresent(adb.mainTrie, uaCodeHash(baseAcc))) ==>
+             payload(adb.entries[jidx(old(len(adb.entries)))], ptr_state.journalEntryCode).oldCodeEntry != nil
+             && payload(adb.entries[jidx(old(len(adb.entries)))], ptr_state.journalEntryCode).oldCodeEntry.NumReferences == old(entryRefs(adb.mainTrie, uaCodeHash(baseAcc)))
+             && str(payload(adb.entries[jidx(old(len(adb.entries)))], ptr_state.journalEntryCode).oldCodeEntry.Code) == old(entryCode(adb.mainTrie, uaCodeHash(baseAcc)))
+  ensures  earlier-entries-kept: forall k :: 0 <= k && k < old(len(adb.entries)) ==> adb.entries[jidx(k)] == old(adb.entries[jidx(k)])
+  ensures  failure-journals-nothing: err != nil ==> adb.entries == old(adb.entries)
+  ensures  failure-changes-nothing: err != nil ==> tcell(adb.mainTrie, uaCodeHash(baseAcc))[0] == old(tcell(adb.mainTrie, uaCodeHash(baseAcc))[0])
+  ensures  same-or-new-array: base(adb.entries) == old(base(adb.entries)) || fresh(adb.entries)
+  assigns  elems(tcell(adb.mainTrie, uaCodeHash(baseAcc))), adb.entries, elems(adb.entries)
+
+// ---- the property, composed on ONE witness hash w (an arbitrary key content) -------------------------------------------
+// wf(T,h): what the reference-count invariant gives for one hash: nothing is stored under the empty key, a stored entry counts >= 1.
+spec fn wfEntry(t Updater, h string) bool = (len(h) == 0 ==> !entryPresent(t, h)) && (entryPresent(t, h) ==> 1 <= entryRefs(t, h) && entryRefs(t, h) < 4294967295)
+
+// A code change (old hash h1 -> new hash h2, the two updates of saveCode) followed by the revert of its journal entry
+// leaves presence, counter and code of EVERY hash w as they were. Hypotheses = the invariant: the account's old hash has its entry.
+lemma code-change-then-revert-is-identity
+  vars adb *AccountsDB, h1 []byte, h2 []byte, code []byte, w string
+  hyp  !isNil(adb.mainTrie) && !isNil(adb.marshalizer) && str(h1) != str(h2)
+  hyp  wfEntry(adb.mainTrie, str(h1)) && wfEntry(adb.mainTrie, str(h2)) && wfEntry(adb.mainTrie, "")
+  hyp  len(h1) != 0 ==> entryPresent(adb.mainTrie, str(h1))
+  hyp  len(code) == 0 <==> len(h2) == 0
+  call e, e1 = adb.updateOldCodeEntry(h1)
+  call e2 = adb.updateNewCodeEntry(h2, code)
+  call j, e3 = NewJournalEntryCode(e, h1, h2, adb.mainTrie, adb.marshalizer)
+  call a, e4 = j.Revert()
+  concl journal-entry-built: e1 == nil && e2 == nil ==> e3 == nil
+  concl presence-restored: e1 == nil && e2 == nil && e4 == nil ==> (entryPresent(adb.mainTrie, w) <==> old(entryPresent(adb.mainTrie, w)))
+  concl counter-restored: e1 == nil && e2 == nil && e4 == nil && old(entryPresent(adb.mainTrie, w)) ==> entryRefs(adb.mainTrie, w) == old(entryRefs(adb.mainTrie, w))
+  concl code-restored: e1 == nil && e2 == nil && e4 == nil && old(entryPresent(adb.mainTrie, w)) ==> entryCode(adb.mainTrie, w) == old(entryCode(adb.mainTrie, w))
+
+// The same for removeCode (no new hash).
+lemma code-removal-then-revert-is-identity
+  vars adb *AccountsDB, h1 []byte, h2 []byte, w string
+  hyp  !isNil(adb.mainTrie) && !isNil(adb.marshalizer) && len(h2) == 0
+  hyp  wfEntry(adb.mainTrie, str(h1)) && wfEntry(adb.mainTrie, "")
+  hyp  len(h1) != 0 ==> entryPresent(adb.mainTrie, str(h1))
+  call e, e1 = adb.updateOldCodeEntry(h1)
+  call j, e3 = NewJournalEntryCode(e, h1, h2, adb.mainTrie, adb.marshalizer)
+  call a, e4 = j.Revert()
+  concl presence-restored: e1 == nil && e4 == nil ==> (entryPresent(adb.mainTrie, w) <==> old(entryPresent(adb.mainTrie, w)))
+  concl counter-restored: e1 == nil && e4 == nil && old(entryPresent(adb.mainTrie, w)) ==> entryRefs(adb.mainTrie, w) == old(entryRefs(adb.mainTrie, w))
+  concl code-restored: e1 == nil && e4 == nil && old(entryPresent(adb.mainTrie, w)) ==> entryCode(adb.mainTrie, w) == old(entryCode(adb.mainTrie, w))
+
+// Invariant step on a witness hash w with ghost n = number of accounts whose CodeHash is w:
+// (entry present <=> n >= 1) and (present ==> NumReferences == n). An account dropping w makes n-1, an account adopting w makes n+1.
+lemma dereference-keeps-count-invariant
+  vars adb *AccountsDB, h []byte, n int
+  hyp  !isNil(adb.mainTrie) && !isNil(adb.marshalizer) && n >= 1
+  hyp  (entryPresent(adb.mainTrie, str(h)) <==> n >= 1) && (entryPresent(adb.mainTrie, str(h)) ==> entryRefs(adb.mainTrie, str(h)) == n)
+  call e, e1 = adb.updateOldCodeEntry(h)
+  concl exists-iff-referenced: e1 == nil ==> (entryPresent(adb.mainTrie, str(h)) <==> n - 1 >= 1)
+  concl counter-is-number-of-accounts: e1 == nil && entryPresent(adb.mainTrie, str(h)) ==> entryRefs(adb.mainTrie, str(h)) == n - 1
+
+lemma reference-keeps-count-invariant
+  vars adb *AccountsDB, h []byte, code []byte, n int
+  hyp  !isNil(adb.mainTrie) && !isNil(adb.marshalizer) && 0 <= n && n < 4294967295 && len(code) != 0
+  hyp  (entryPresent(adb.mainTrie, str(h)) <==> n >= 1) && (entryPresent(adb.mainTrie, str(h)) ==> entryRefs(adb.mainTrie, str(h)) == n)
+  call e1 = adb.updateNewCodeEntry(h, code)
+  concl exists-iff-referenced: e1 == nil ==> (entryPresent(adb.mainTrie, str(h)) <==> n + 1 >= 1)
+  concl counter-is-number-of-accounts: e1 == nil ==> entryRefs(adb.mainTrie, str(h)) == n + 1
+  concl stored-once: e1 == nil && n == 0 ==> entryCode(adb.mainTrie, str(h)) == old(str(code))
+
+// Other hashes are never touched (frame, stated once as a lemma): a code change h1 -> h2 leaves every w outside {h1,h2} alone.
+lemma other-hashes-untouched
+  vars adb *AccountsDB, h1 []byte, h2 []byte, code []byte, w string
+  hyp  !isNil(adb.mainTrie) && !isNil(adb.marshalizer) && w != str(h1) && w != str(h2)
+  call e, e1 = adb.updateOldCodeEntry(h1)
+  call e2 = adb.updateNewCodeEntry(h2, code)
+  concl untouched: tcell(adb.mainTrie, w)[0] == old(tcell(adb.mainTrie, w)[0])
+@*/
+
+/*@
+// ---------------------------------------------------------------------------------------------------------------------
+// C06 — account state reverts exactly to a journal snapshot: every journal entry undoes exactly what it recorded.
+// (main trie: ghost cells tcell of the C07 block; the whole-history statement is covered by the bounded stand-in
+// /verif/rac/C06_journal_test.go, see the spec.)
+func NewJournalEntryAccount(account vmcommon.AccountHandler) (j *journalEntryAccount, err error)
+  ensures  rejects-nil: isNil(account) ==> j == nil && err != nil
+  ensures  records-pre-image: !isNil(account) ==> err == nil && j != nil && fresh(j) && j.account == account
+  assigns  nothing
+
+func (jea *journalEntryAccount) Revert() (a vmcommon.AccountHandler, err error)
+  ensures  returns-pre-image: a == jea.account && err == nil
+  assigns  nothing
+
+func NewJournalEntryAccountCreation(address []byte, updater Updater) (j *journalEntryAccountCreation, err error)
+  ensures  rejects: isNil(updater) || len(address) == 0 ==> j == nil && err != nil
+  ensures  records-address: !isNil(updater) && len(address) != 0 ==> err == nil && j != nil && fresh(j) && j.address == address && j.updater == updater
+  assigns  nothing
+
+func (jea *journalEntryAccountCreation) Revert() (a vmcommon.AccountHandler, err error)
+  requires wired: !isNil(jea.updater)
+  ensures  no-account-to-save: isNil(a)
+  ensures  created-leaf-removed: err == nil ==> len(tcell(jea.updater, str(jea.address))[0]) == 0
+  ensures  failure-changes-nothing: err != nil ==> tcell(jea.updater, str(jea.address))[0] == old(tcell(jea.updater, str(jea.address))[0])
+  assigns  elems(tcell(jea.updater, str(jea.address)))
+
+func NewJournalEntryDataTrieRemove(rootHash []byte, obsoleteDataTrieHashes map[string][][]byte) (j *journalEntryDataTrieRemove, err error)
+  ensures  rejects: isNil(obsoleteDataTrieHashes) || len(rootHash) == 0 ==> j == nil && err != nil
+  ensures  records: !isNil(obsoleteDataTrieHashes) && len(rootHash) != 0 ==> err == nil && j != nil && fresh(j) && j.rootHash == rootHash && j.obsoleteDataTrieHashes == obsoleteDataTrieHashes
+  assigns  nothing
+
+func (jedtr *journalEntryDataTrieRemove) Revert() (a vmcommon.AccountHandler, err error)
+  ensures  no-account-to-save: isNil(a) && err == nil
+  ensures  eviction-cancelled: !has(jedtr.obsoleteDataTrieHashes, str(jedtr.rootHash))
+  ensures  other-roots-kept: forall s string :: s != str(jedtr.rootHash) ==> (has(jedtr.obsoleteDataTrieHashes, s) <==> old(has(jedtr.obsoleteDataTrieHashes, s))) && jedtr.obsoleteDataTrieHashes[s] == old(jedtr.obsoleteDataTrieHashes[s])
+  assigns  mapof(jedtr.obsoleteDataTrieHashes)
+
+func NewJournalEntryDataTrieUpdates(trieUpdates map[string][]byte, account baseAccountHandler) (j *journalEntryDataTrieUpdates, err error)
+  ensures  rejects: isNil(account) || len(trieUpdates) == 0 ==> j == nil && err != nil
+  ensures  records: !isNil(account) && len(trieUpdates) != 0 ==> err == nil && j != nil && fresh(j) && j.trieUpdates == trieUpdates && j.account == account
+  assigns  nothing
+@*/
+
+/*@
+// C06 (continued) — RemoveAccount: the pre-image is journaled first, then code and data trie, then the leaf is removed.
+spec fn uaRootHash(a baseAccountHandler) []byte = payload(a, ptr_state.userAccount).RootHash
+spec fn isUserAcc(a vmcommon.AccountHandler) bool = typeIs(a, ptr_state.userAccount) && payload(a, ptr_state.userAccount) != nil && payload(a, ptr_state.userAccount).baseAccount != nil
+
+extern func hex.EncodeToString(src []byte) (r string)
+  assigns nothing
+
+func (f AccountFactory) CreateAccount(address []byte) (r vmcommon.AccountHandler, err error)
+  // assumption: the factory returns a NEW account object (production factories: NewUserAccount / NewPeerAccount)
+  ensures  new-account: err == nil ==> !isNil(r) && fresh(payload(r, ptr_state.userAccount)) && fresh(payload(r, ptr_state.peerAccount))
+  // assumption: this is the accounts DB of USER accounts (the peer accounts DB shares the code but has neither code nor storage)
+  ensures  user-account: err == nil ==> isUserAcc(r)
+  ensures  failure: err != nil ==> isNil(r)
+  assigns  nothing
+
+func (b baseAccountHandler) GetRootHash() (r []byte)
+  ensures  reads-root-hash: isUser(b) ==> r == payload(b, ptr_state.userAccount).RootHash
+  assigns  nothing
+
+func (tr data.Trie) Recreate(root []byte) (r data.Trie, err error)
+  // assumption: a successful Recreate returns a trie object
+  ensures  returns-trie: err == nil ==> !isNil(r)
+  assigns  nothing
+
+func (tr data.Trie) GetAllHashes() (r [][]byte, err error)
+  assigns  nothing
+
+func (adb *AccountsDB) getAccount(address []byte) (a vmcommon.AccountHandler, err error)
+  requires wired: !isNil(adb.mainTrie) && !isNil(adb.marshalizer) && !isNil(adb.accountFactory)
+  ensures  no-leaf-no-account: !trieFails(adb.mainTrie, str(address)) && isNil(trieValue(adb.mainTrie, str(address))) ==> isNil(a) && err == nil
+  ensures  decoded-into-new-object: err == nil && !isNil(trieValue(adb.mainTrie, str(address))) ==> !isNil(a) && fresh(payload(a, ptr_state.userAccount)) && isUserAcc(a)
+  ensures  returned-account-is-new-user-account: !isNil(a) ==> isUserAcc(a) && fresh(payload(a, ptr_state.userAccount))
+  ensures  failure: err != nil ==> isNil(a)
+  assigns  nothing
+
+func (adb *AccountsDB) saveAccountToTrie(accountHandler vmcommon.AccountHandler) (err error)
+  requires wired: !isNil(adb.mainTrie) && !isNil(adb.marshalizer) && !isNil(accountHandler)
+  ensures  failure-changes-nothing: err != nil ==> tcell(adb.mainTrie, str(accountHandler.AddressBytes()))[0] == old(tcell(adb.mainTrie, str(accountHandler.AddressBytes()))[0])
+  assigns  elems(tcell(adb.mainTrie, str(accountHandler.AddressBytes())))
+
+func (h vmcommon.AccountHandler) AddressBytes() (r []byte)
+  pure
+
+func (adb *AccountsDB) removeDataTrie(baseAcc baseAccountHandler) (err error)
+  requires wired: !isNil(adb.mainTrie) && !isNil(adb.obsoleteDataTrieHashes)
+  requires account-is-user-account: isUser(baseAcc)
+  ensures  no-storage-nothing-to-do: len(uaRootHash(baseAcc)) == 0 ==> err == nil && adb.entries == old(adb.entries) && len(adb.entries) == old(len(adb.entries))
+  ensures  eviction-recorded: err == nil && len(uaRootHash(baseAcc)) != 0 ==> has(adb.obsoleteDataTrieHashes, str(uaRootHash(baseAcc)))
+  ensures  eviction-journaled: err == nil && len(uaRootHash(baseAcc)) != 0 ==> len(adb.entries) == old(len(adb.entries)) + 1
+             && typeIs(adb.entries[jidx(old(len(adb.entries)))], ptr_state.journalEntryDataTrieRemove)
+             && payload(adb.entries[jidx(old(len(adb.entries)))], ptr_state.journalEntryDataTrieRemove).rootHash == uaRootHash(baseAcc)
+             && payload(adb.entries[jidx(old(len(adb.entries)))], ptr_state.journalEntryDataTrieRemove).obsoleteDataTrieHashes == adb.obsoleteDataTrieHashes
+  ensures  earlier-entries-kept: forall k :: 0 <= k && k < old(len(adb.entries)) ==> adb.entries[jidx(k)] == old(adb.entries[jidx(k)])
+  ensures  failure-journals-nothing: err != nil ==> adb.entries == old(adb.entries)
+  ensures  same-or-new-array: base(adb.entries) == old(base(adb.entries)) || fresh(adb.entries)
+  assigns  mapof(adb.obsoleteDataTrieHashes), adb.entries, elems(adb.entries)
+@*/
+
+/*@
+func (adb *AccountsDB) removeCodeAndDataTrie(acnt vmcommon.AccountHandler) (err error)
+  requires wired: !isNil(adb.mainTrie) && !isNil(adb.marshalizer) && !isNil(adb.obsoleteDataTrieHashes)
+  requires user-account: isUserAcc(acnt)
+  // C07 on the removal path: the entry under the removed account's code hash loses exactly one reference
+  ensures  code-absent-untouched: err == nil && !old(entryPresent(adb.mainTrie, str(payload(acnt, ptr_state.userAccount).CodeHash))) ==> tcell(adb.mainTrie, str(payload(acnt, ptr_state.userAccount).CodeHash))[0] == old(tcell(adb.mainTrie, str(payload(acnt, ptr_state.userAccount).CodeHash))[0])
+  ensures  code-last-reference-deleted: err == nil && old(entryPresent(adb.mainTrie, str(payload(acnt, ptr_state.userAccount).CodeHash))) && old(entryRefs(adb.mainTrie, str(payload(acnt, ptr_state.userAccount).CodeHash))) <= 1 ==> !entryPresent(adb.mainTrie, str(payload(acnt, ptr_state.userAccount).CodeHash))
+  ensures  code-decremented-by-one: err == nil && old(entryPresent(adb.mainTrie, str(payload(acnt, ptr_state.userAccount).CodeHash))) && old(entryRefs(adb.mainTrie, str(payload(acnt, ptr_state.userAccount).CodeHash))) > 1 ==>
+             entryPresent(adb.mainTrie, str(payload(acnt, ptr_state.userAccount).CodeHash)) && entryRefs(adb.mainTrie, str(payload(acnt, ptr_state.userAccount).CodeHash)) == old(entryRefs(adb.mainTrie, str(payload(acnt, ptr_state.userAccount).CodeHash))) - 1
+  // a removal that FAILS must not have moved the counter (the account is still there): fails, finding F06b
+  ensures  failed-removal-leaves-code-entry: err != nil ==> tcell(adb.mainTrie, str(payload(acnt, ptr_state.userAccount).CodeHash))[0] == old(tcell(adb.mainTrie, str(payload(acnt, ptr_state.userAccount).CodeHash))[0])
+  ensures  code-removal-journaled-first: err == nil ==> len(adb.entries) >= old(len(adb.entries)) + 1 && typeIs(adb.entries[jidx(old(len(adb.entries)))], ptr_state.journalEntryCode)
+             && str(payload(adb.entries[jidx(old(len(adb.entries)))], ptr_state.journalEntryCode).oldCodeHash) == str(payload(acnt, ptr_state.userAccount).CodeHash)
+             && len(payload(adb.entries[jidx(old(len(adb.entries)))], ptr_state.journalEntryCode).newCodeHash) == 0
+  ensures  data-trie-removal-journaled-second: len(adb.entries) > old(len(adb.entries)) + 1 ==> typeIs(adb.entries[jidx(old(len(adb.entries)) + 1)], ptr_state.journalEntryDataTrieRemove)
+  ensures  storage-eviction-scheduled: err == nil && len(payload(acnt, ptr_state.userAccount).RootHash) != 0 ==> len(adb.entries) == old(len(adb.entries)) + 2
+             && has(adb.obsoleteDataTrieHashes, str(payload(acnt, ptr_state.userAccount).RootHash))
+  ensures  earlier-entries-kept: forall k :: 0 <= k && k < old(len(adb.entries)) ==> adb.entries[jidx(k)] == old(adb.entries[jidx(k)])
+  ensures  at-most-two-entries: len(adb.entries) <= old(len(adb.entries)) + 2 && len(adb.entries) >= old(len(adb.entries))
+  ensures  same-or-new-array: base(adb.entries) == old(base(adb.entries)) || fresh(adb.entries)
+  assigns  elems(tcell(adb.mainTrie, str(payload(acnt, ptr_state.userAccount).CodeHash))), mapof(adb.obsoleteDataTrieHashes), adb.entries, elems(adb.entries)
+
+func (adb *AccountsDB) RemoveAccount(address []byte) (err error)
+  requires wired: !isNil(adb.mainTrie) && !isNil(adb.marshalizer) && !isNil(adb.accountFactory) && !isNil(adb.obsoleteDataTrieHashes)
+  ensures  empty-address-rejected: len(address) == 0 ==> err != nil && adb.entries == old(adb.entries)
+  ensures  absent-account-rejected: len(address) != 0 && !trieFails(adb.mainTrie, str(address)) && isNil(trieValue(adb.mainTrie, str(address))) ==> err != nil && adb.entries == old(adb.entries) && len(adb.entries) == old(len(adb.entries))
+  ensures  pre-image-journaled-first: err == nil ==> len(adb.entries) >= old(len(adb.entries)) + 1
+             && typeIs(adb.entries[jidx(old(len(adb.entries)))], ptr_state.journalEntryAccount)
+             && !isNil(payload(adb.entries[jidx(old(len(adb.entries)))], ptr_state.journalEntryAccount).account)
+  ensures  leaf-removed: err == nil ==> len(tcell(adb.mainTrie, str(address))[0]) == 0
+  ensures  code-removal-journaled-second: err == nil ==> len(adb.entries) >= old(len(adb.entries)) + 2 && typeIs(adb.entries[jidx(old(len(adb.entries)) + 1)], ptr_state.journalEntryCode)
+             && len(payload(adb.entries[jidx(old(len(adb.entries)) + 1)], ptr_state.journalEntryCode).newCodeHash) == 0
+  ensures  at-most-three-entries: len(adb.entries) <= old(len(adb.entries)) + 3
+  ensures  earlier-entries-kept: forall k :: 0 <= k && k < old(len(adb.entries)) ==> adb.entries[jidx(k)] == old(adb.entries[jidx(k)])
+  ensures  lock-released: !held(adb.mutOp) && !heldR(adb.mutOp)
+@*/
+
+/*@
+// C06 (continued) — data trie updates. The data trie of a user account sits behind two interfaces
+// (baseAccountHandler -> DataTrieTracker -> data.Trie); the contracts below say what userAccount / TrackableDataTrie do.
+spec fn uaTracker(a baseAccountHandler) DataTrieTracker = payload(a, ptr_state.userAccount).baseAccount.dataTrieTracker
+spec fn hasTracker(a baseAccountHandler) bool = isUser(a) && typeIs(uaTracker(a), ptr_state.TrackableDataTrie) && payload(uaTracker(a), ptr_state.TrackableDataTrie) != nil
+spec fn uaDataTrie(a baseAccountHandler) data.Trie = payload(uaTracker(a), ptr_state.TrackableDataTrie).tr
+
+func (b baseAccountHandler) DataTrie() (r data.Trie)
+  ensures  reads-data-trie: hasTracker(b) ==> r == uaDataTrie(b)
+  assigns  nothing
+
+func (b baseAccountHandler) DataTrieTracker() (r DataTrieTracker)
+  ensures  reads-tracker: isUser(b) ==> r == uaTracker(b)
+  assigns  nothing
+
+func (b baseAccountHandler) SetRootHash(rootHash []byte)
+  ensures  writes-root-hash: isUser(b) ==> payload(b, ptr_state.userAccount).RootHash == rootHash
+  assigns  payload(b, ptr_state.userAccount).UserAccountData
+
+func (a *userAccount) SetRootHash(roothash []byte)
+  ensures  writes-root-hash: a.RootHash == roothash
+  assigns  a.UserAccountData
+
+func (tr data.Trie) RootHash() (r []byte, err error)
+  assigns  nothing
+
+// Revert writes leaves of the account's data trie only (which ones: one Update per recorded key with the recorded value — a
+// map range, "every key visited" is not expressible; a string-quantified invariant makes the solvers give up), stores the
+// recomputed root hash in the account and hands the account back (RevertToSnapshot saves it).
+func (jedtu *journalEntryDataTrieUpdates) Revert() (a vmcommon.AccountHandler, err error)
+  requires account-with-data-trie: hasTracker(jedtu.account) && !isNil(uaDataTrie(jedtu.account))
+  ensures  account-handed-back: err == nil ==> iface(a) == iface(jedtu.account)
+  ensures  failure-hands-nothing-back: err != nil ==> isNil(a)
+  assigns  allelems(tcell(uaDataTrie(jedtu.account), "")), payload(jedtu.account, ptr_state.userAccount).UserAccountData
+loop 1
+  invariant account-kept: jedtu.account == old(jedtu.account) && jedtu.trieUpdates == old(jedtu.trieUpdates) && hasTracker(jedtu.account) && uaDataTrie(jedtu.account) == old(uaDataTrie(jedtu.account))
+@*/
+
+/*@
+// C06 (continued) — SaveAccount: the creation entry / the pre-image is journaled first, then the data trie updates (with the
+// old value of every dirty key), then the code change, then the account leaf is written.
+func (b baseAccountHandler) AddressBytes() (r []byte)
+  pure
+func (b baseAccountHandler) GetNonce() (r uint64)
+  assigns  nothing
+
+func (b baseAccountHandler) SetDataTrie(trie data.Trie)
+  ensures  writes-data-trie: hasTracker(b) ==> uaDataTrie(b) == trie
+  assigns  payload(uaTracker(b), ptr_state.TrackableDataTrie).tr
+
+func (t DataTrieTracker) DirtyData() (r map[string][]byte)
+  ensures  reads-dirty-data: typeIs(t, ptr_state.TrackableDataTrie) ==> r == payload(t, ptr_state.TrackableDataTrie).dirtyData
+  assigns  nothing
+
+func (t DataTrieTracker) DataTrie() (r data.Trie)
+  ensures  reads-data-trie: typeIs(t, ptr_state.TrackableDataTrie) ==> r == payload(t, ptr_state.TrackableDataTrie).tr
+  assigns  nothing
+
+func (t DataTrieTracker) ClearDataCaches()
+  ensures  emptied: typeIs(t, ptr_state.TrackableDataTrie) ==> len(payload(t, ptr_state.TrackableDataTrie).dirtyData) == 0
+  assigns  payload(t, ptr_state.TrackableDataTrie).dirtyData
+
+func (adb *AccountsDB) saveDataTrie(accountHandler baseAccountHandler) (err error)
+  requires wired: !isNil(adb.mainTrie) && !isNil(adb.dataTries)
+  requires user-account-with-tracker: hasTracker(accountHandler)
+  ensures  nothing-dirty-nothing-to-do: old(len(payload(uaTracker(accountHandler), ptr_state.TrackableDataTrie).dirtyData)) == 0 ==> err == nil && adb.entries == old(adb.entries) && len(adb.entries) == old(len(adb.entries))
+  ensures  updates-journaled: err == nil && old(len(payload(uaTracker(accountHandler), ptr_state.TrackableDataTrie).dirtyData)) != 0 ==> len(adb.entries) == old(len(adb.entries)) + 1
+             && typeIs(adb.entries[jidx(old(len(adb.entries)))], ptr_state.journalEntryDataTrieUpdates)
+             && iface(payload(adb.entries[jidx(old(len(adb.entries)))], ptr_state.journalEntryDataTrieUpdates).account) == iface(accountHandler)
+  ensures  dirty-data-flushed: err == nil && old(len(payload(uaTracker(accountHandler), ptr_state.TrackableDataTrie).dirtyData)) != 0 ==> len(payload(uaTracker(accountHandler), ptr_state.TrackableDataTrie).dirtyData) == 0
+  ensures  earlier-entries-kept: err == nil ==> (forall k :: 0 <= k && k < old(len(adb.entries)) ==> adb.entries[jidx(k)] == old(adb.entries[jidx(k)]))
+  ensures  at-most-one-entry: len(adb.entries) >= old(len(adb.entries)) && len(adb.entries) <= old(len(adb.entries)) + 1
+  ensures  only-an-updates-entry: len(adb.entries) > old(len(adb.entries)) ==> typeIs(adb.entries[jidx(old(len(adb.entries)))], ptr_state.journalEntryDataTrieUpdates)
+  ensures  same-or-new-array: base(adb.entries) == old(base(adb.entries)) || fresh(adb.entries)
+  assigns  allelems(tcell(adb.mainTrie, "")), payload(uaTracker(accountHandler), ptr_state.TrackableDataTrie).tr, payload(uaTracker(accountHandler), ptr_state.TrackableDataTrie).dirtyData,
+           payload(accountHandler, ptr_state.userAccount).UserAccountData, adb.entries, elems(adb.entries)
+loop 1
+  invariant tracker-kept: hasTracker(accountHandler) && trackableDataTrie == uaTracker(accountHandler) && dataTrie == uaDataTrie(accountHandler) && !isNil(dataTrie)
+  invariant journal-untouched: adb.entries == old(adb.entries) && adb.mainTrie == old(adb.mainTrie) && adb.dataTries == old(adb.dataTries)
+  invariant journal-entries-untouched: forall k :: 0 <= k && k < len(adb.entries) ==> adb.entries[jidx(k)] == old(adb.entries[jidx(k)])
+  invariant old-values-is-a-new-map: !isNil(oldValues) && fresh(oldValues)
+  invariant dirty-data-nonempty: old(len(payload(uaTracker(accountHandler), ptr_state.TrackableDataTrie).dirtyData)) != 0
+  // NOT stated: "oldValues[s] is what Get returned for s before its Update" — needs a string-quantified invariant over a map that
+  // is updated in the loop (solvers answer unknown); the bounded stand-in covers it (a wrong pre-image breaks the revert).
+
+func (adb *AccountsDB) saveCodeAndDataTrie(oldAcc vmcommon.AccountHandler, newAcc vmcommon.AccountHandler) (err error)
+  requires wired: !isNil(adb.mainTrie) && !isNil(adb.marshalizer) && !isNil(adb.hasher) && !isNil(adb.dataTries)
+  requires user-accounts: isUserAcc(newAcc) && typeIs(payload(newAcc, ptr_state.userAccount).baseAccount.dataTrieTracker, ptr_state.TrackableDataTrie)
+             && payload(payload(newAcc, ptr_state.userAccount).baseAccount.dataTrieTracker, ptr_state.TrackableDataTrie) != nil && (isNil(oldAcc) || isUserAcc(oldAcc))
+  // (whether x.(baseAccountHandler) succeeds is not decided by the engine: the clauses hold for both outcomes)
+  ensures  data-trie-updates-before-code: len(adb.entries) == old(len(adb.entries)) + 2 ==> typeIs(adb.entries[jidx(old(len(adb.entries)))], ptr_state.journalEntryDataTrieUpdates) && typeIs(adb.entries[jidx(old(len(adb.entries)) + 1)], ptr_state.journalEntryCode)
+  ensures  earlier-entries-kept: err == nil ==> (forall k :: 0 <= k && k < old(len(adb.entries)) ==> adb.entries[jidx(k)] == old(adb.entries[jidx(k)]))
+  ensures  at-most-two-entries: len(adb.entries) >= old(len(adb.entries)) && len(adb.entries) <= old(len(adb.entries)) + 2
+  ensures  same-or-new-array: base(adb.entries) == old(base(adb.entries)) || fresh(adb.entries)
+  assigns  allelems(tcell(adb.mainTrie, "")), payload(payload(newAcc, ptr_state.userAccount).baseAccount.dataTrieTracker, ptr_state.TrackableDataTrie).tr,
+           payload(payload(newAcc, ptr_state.userAccount).baseAccount.dataTrieTracker, ptr_state.TrackableDataTrie).dirtyData,
+           payload(newAcc, ptr_state.userAccount).UserAccountData, adb.entries, elems(adb.entries)
+
+func (adb *AccountsDB) SaveAccount(account vmcommon.AccountHandler) (err error)
+  requires wired: !isNil(adb.mainTrie) && !isNil(adb.marshalizer) && !isNil(adb.hasher) && !isNil(adb.dataTries) && !isNil(adb.accountFactory)
+  requires user-account-or-nil: isNil(account) || (isUserAcc(account) && typeIs(payload(account, ptr_state.userAccount).baseAccount.dataTrieTracker, ptr_state.TrackableDataTrie)
+             && payload(payload(account, ptr_state.userAccount).baseAccount.dataTrieTracker, ptr_state.TrackableDataTrie) != nil)
+  ensures  nil-account-rejected: isNil(account) ==> err != nil && adb.entries == old(adb.entries)
+  ensures  creation-journaled-first: err == nil && !trieFails(adb.mainTrie, str(account.AddressBytes())) && isNil(trieValue(adb.mainTrie, str(account.AddressBytes()))) ==>
+             len(adb.entries) > old(len(adb.entries)) && typeIs(adb.entries[jidx(old(len(adb.entries)))], ptr_state.journalEntryAccountCreation)
+             && payload(adb.entries[jidx(old(len(adb.entries)))], ptr_state.journalEntryAccountCreation).address == account.AddressBytes()
+             && payload(adb.entries[jidx(old(len(adb.entries)))], ptr_state.journalEntryAccountCreation).updater == old(adb.mainTrie)
+  ensures  pre-image-journaled-first: err == nil && !isNil(trieValue(adb.mainTrie, str(account.AddressBytes()))) ==>
+             len(adb.entries) > old(len(adb.entries)) && typeIs(adb.entries[jidx(old(len(adb.entries)))], ptr_state.journalEntryAccount)
+             && !isNil(payload(adb.entries[jidx(old(len(adb.entries)))], ptr_state.journalEntryAccount).account)
+             && iface(payload(adb.entries[jidx(old(len(adb.entries)))], ptr_state.journalEntryAccount).account) != iface(account)
+  ensures  at-most-three-entries: len(adb.entries) >= old(len(adb.entries)) && len(adb.entries) <= old(len(adb.entries)) + 3
+  ensures  earlier-entries-kept: err == nil ==> (forall k :: 0 <= k && k < old(len(adb.entries)) ==> adb.entries[jidx(k)] == old(adb.entries[jidx(k)]))
+  ensures  lock-released: !held(adb.mutOp) && !heldR(adb.mutOp)
+@*/
+
+/*@
+// C06 (continued) — RevertToSnapshot. What ANY journal entry of this package may write when reverted (assumption, the union
+// of the frames of the five Revert methods verified above): trie leaves, the obsolete-hashes map of a data-trie-removal
+// entry, the UserAccountData of the account of a data-trie-updates entry. Never the journal itself.
+func (e JournalEntry) Revert() (a vmcommon.AccountHandler, err error)
+  assigns  allelems(tcell(payload(e, ptr_state.journalEntryCode).trie, "")), mapof(payload(e, ptr_state.journalEntryDataTrieRemove).obsoleteDataTrieHashes),
+           payload(payload(e, ptr_state.journalEntryDataTrieUpdates).account, ptr_state.userAccount).UserAccountData
+
+// the cache of loaded data tries is not modelled (its content is invisible to the contracts)
+func (h TriesHolder) Reset()
+  assigns  nothing
+func (h TriesHolder) Put(key []byte, tr data.Trie)
+  assigns  nothing
+func (h TriesHolder) Get(key []byte) (r data.Trie)
+  assigns  nothing
+
+func (adb *AccountsDB) recreateTrie(rootHash []byte) (err error)
+  requires wired: !isNil(adb.mainTrie) && !isNil(adb.dataTries)
+  ensures  journal-emptied: len(adb.entries) == 0
+  ensures  trie-replaced: err == nil ==> !isNil(adb.mainTrie)
+  ensures  failure-keeps-trie: err != nil ==> adb.mainTrie == old(adb.mainTrie)
+  assigns  adb.obsoleteDataTrieHashes, adb.entries, adb.mainTrie
+
+func (adb *AccountsDB) RevertToSnapshot(snapshot int) (err error)
+  requires wired: !isNil(adb.mainTrie) && !isNil(adb.marshalizer) && !isNil(adb.dataTries)
+  requires journal-holds-entries: forall k :: 0 <= k && k < len(adb.entries) ==> !isNil(adb.entries[k])
+  ensures  out-of-bounds-rejected: snapshot < 0 || snapshot > old(len(adb.entries)) ==> err != nil && adb.entries == old(adb.entries)
+  ensures  zero-is-last-committed-state: snapshot == 0 ==> len(adb.entries) == 0
+  ensures  truncated-to-snapshot: err == nil && 0 < snapshot ==> len(adb.entries) == snapshot && base(adb.entries) == old(base(adb.entries)) && off(adb.entries) == old(off(adb.entries))
+  ensures  kept-entries-untouched: err == nil && 0 < snapshot ==> (forall k :: 0 <= k && k < snapshot ==> adb.entries[jidx(k)] == old(adb.entries[jidx(k)]))
+  ensures  failure-keeps-journal: err != nil && 0 < snapshot ==> adb.entries == old(adb.entries)
+  ensures  lock-released: !held(adb.mutOp) && !heldR(adb.mutOp)
+loop 1
+  invariant index-in-journal: snapshot - 1 <= i && i <= len(adb.entries) - 1 && 0 < snapshot
+  invariant journal-untouched: adb.entries == old(adb.entries) && (forall k :: 0 <= k && k < len(adb.entries) ==> adb.entries[jidx(k)] == old(adb.entries[jidx(k)]))
+  invariant still-wired: adb.mainTrie == old(adb.mainTrie) && adb.marshalizer == old(adb.marshalizer)
+  decreases i - snapshot + 1
+@*/
+
+/*@
+// C06 — small compositions: an entry built by its constructor and reverted undoes the recorded operation.
+lemma creation-then-revert-leaves-no-leaf
+  vars addr []byte, t Updater
+  hyp  !isNil(t) && len(addr) != 0
+  call j, e = NewJournalEntryAccountCreation(addr, t)
+  call a, e2 = j.Revert()
+  concl entry-built: e == nil
+  concl leaf-gone: e2 == nil ==> len(tcell(t, str(addr))[0]) == 0 && isNil(a)
+
+lemma pre-image-entry-hands-back-the-recorded-account
+  vars acc vmcommon.AccountHandler
+  hyp  !isNil(acc)
+  call j, e = NewJournalEntryAccount(acc)
+  call a, e2 = j.Revert()
+  concl same-object: e == nil && e2 == nil && a == acc
+
+// (journalEntryDataTrieRemove.Revert deletes the key: it restores the map only when the root hash was NOT scheduled before —
+// two removed accounts with the same storage root: reverting the second removal also unschedules the first; pruning only.
+// No lemma: map types are not available as lemma variables.)
+@*/
